@@ -335,8 +335,9 @@ class IntroVisitor(ast.NodeVisitor):
         function_body_hash = dds_hash(self._body_lines[: last_lineno + 1])
         # The list of all the previous interactions.
         # This enforces the concept that the current call depends on previous calls.
+        # (the paths loaded so far are part of it: a loaded value may be passed to the call)
         function_inters_sig: Optional[PyHash] = dds_hash_commut(
-            _fis_to_siglist(self.inters)
+            _fis_to_siglist(self.inters) + self._loads_to_siglist()
         )
         # Check the call for dds calls or sub_calls.
         fi_or_p = InspectFunction.inspect_call(
@@ -360,6 +361,15 @@ class IntroVisitor(ast.NodeVisitor):
         if fi_or_p is not None and isinstance(fi_or_p, str):
             self.load_paths.append(fi_or_p)
         self.generic_visit(node)
+
+    def _loads_to_siglist(self) -> List[Tuple[HK, PyHash]]:
+        # The signatures of the paths loaded by the function so far.
+        res: List[Tuple[HK, PyHash]] = []
+        for p in _no_dups(self.load_paths):
+            key = self._gctx.resolved_references.get(p)
+            if key is not None:
+                res.append((HK(f"dep_{p}"), key))
+        return res
 
     def visit_Assign(self, node: ast.Assign) -> Any:
         targets = get_assign_targets(node)
